@@ -21,6 +21,7 @@ def run(ctx, rep):
                     for it in w.items:
                         if isinstance(it.context_expr, _ast.Call) and isinstance(it.context_expr.func, _ast.Attribute):
                             used.add(it.context_expr.func.attr)
+    objmodel.rule_converters_convert_members(ctx, rep, "C11-R7")
     recursion.rule_guard_passed_along(ctx, rep, "C11-R5c", only_pred=lambda q: q in ("context:Context._to_python", "context:Context._to_js"))
     pairing.rule_contextmanager_cleanup(ctx, rep, "C11-R6", where=lambda f: f.name in used, what=" used by the boundary converters")
     rep.undecided += ["get(set(v)) == v for all value shapes (round-trip equality is a runtime property)"]
